@@ -19,7 +19,7 @@ NH == Cardinality(Hosts)
 FamSeq == IF Fams = {4} THEN <<4>> ELSE IF Fams = {6} THEN <<6>> ELSE <<4, 6>>
 
 \* canonical orders shared with the Rust driver
-AddrOrder == <<"lo", "a1", "a2", "b1", "b2", "c1", "c2", "x">>
+AddrOrder == <<"lo", "a1", "a2", "b1", "b2", "c1", "c2", "x", "wild">>
 SwA == SelectSeq(AddrOrder, LAMBDA a : a \in SwAddrs)
 SwP == SetToSortSeq(SwPorts, LAMBDA x, y : x < y)
 
